@@ -454,7 +454,7 @@ func runC10Conformance(c *Ctx) {
 	}
 	defer real.close()
 	var validated int64
-	for _, sc := range c10Scripts(c.Thorough()) {
+	for _, sc := range append(c10Scripts(c.Thorough()), c10CodeSweep()...) {
 		if !sc.HalfClose && sc.Front == "http" {
 			continue // a net/http client cannot keep the request open after reading the response
 		}
